@@ -9,7 +9,7 @@ from .. import tdfref as R
 from . import kcommon
 
 PROP = "C03"
-RULE = ("states = distinct canonical (file + in-memory table) states reached by BFS to the fixpoint per configuration "
+RULE = ("[plus every sequence of 1-3 removals on 6 files with an unused slot between live blocks] " +"states = distinct canonical (file + in-memory table) states reached by BFS to the fixpoint per configuration "
         "(slots N, initial file incl. opaque blocks and junk don't-care bytes, 2-5 kinds x 1-3 size variants); every "
         "valid op (add / remove by type|instance / replace / setter / reopen) applied in every state; non-trivial = "
         "states with >= 2 live blocks")
